@@ -506,7 +506,9 @@ pub fn run(rep: &mut Report, thorough: bool) {
         }
     }
     single_instant_handles(rep, &mut rng, if thorough { 150 } else { 4 });
+    exited_leader_streams(rep, &mut rng, if thorough { 60 } else { 4 });
     rep.require("raw_streams_compared", 50);
+    rep.require("exited_leader_dumps_judged", 2);
     rep.require("memory_info_entries_compared", 100);
     rep.require("linker_streams_compared", 5);
     rep.require("system_info_compared", 5);
@@ -588,4 +590,63 @@ fn single_instant_handles(rep: &mut Report, rng: &mut Rng, n: usize) {
         }
     }
     rep.require("single_instant_handle_checks", 2);
+}
+
+
+/// A target whose thread-group leader has exited (zombie) while other threads live on: the
+/// per-process files under /proc/<pid>/ read as empty or fail, those under /proc/<live tid>/ still
+/// report the command line, environment, limits, auxiliary vector and memory map. The dump blames
+/// a live thread; the raw streams must still be copies of what the kernel reports for it.
+fn exited_leader_streams(rep: &mut Report, rng: &mut Rng, n: usize) {
+    for k in 0..n {
+        let mut b = Builder::new();
+        for _ in 0..(1 + k % 3) {
+            b.sentinel(rng, Mode::Pause, &StackShape::default(), None, None);
+        }
+        b.spec.leader_exit = true;
+        let (n1, n2) = (1 + rng.usize_below(30), 1 + rng.usize_below(50));
+        b.opts.args = vec![b"leader-exits".to_vec(), rng.bytes(n1).into_iter().map(|x| if x == 0 { 1 } else { x }).collect()];
+        b.opts.env = Some(vec![(b"PATH".to_vec(), b"/usr/bin".to_vec()), (b"VERIF_LEADER".to_vec(), rng.bytes(n2).into_iter().map(|x| if x == 0 { 3 } else { x }).collect())]);
+        let t = match Target::spawn(b.spec.clone(), &b.opts) {
+            Ok(t) => t,
+            Err(e) => {
+                rep.inconclusive(format!("exited-leader target did not start: {e}"));
+                continue;
+            }
+        };
+        let t0 = std::time::Instant::now();
+        while t.thread_status(t.pid).map(|s| s.0) != Some('Z') && t0.elapsed().as_secs() < 20 {
+            std::thread::sleep(std::time::Duration::from_millis(1));
+        }
+        let worker = t.manifest.tids[k % t.manifest.tids.len()];
+        let mut o = DumpOpts::new(t.pid, worker);
+        o.stop_timeout_ms = Some(30);
+        t.settle();
+        let (out, _) = {
+            let _g = dump::DUMP_LOCK.lock().unwrap_or_else(|e| e.into_inner());
+            dump::dump(&o)
+        };
+        let case = json!({"case": "thread-group leader exited, a live thread is blamed", "threads": t.manifest.tids.len()});
+        match out {
+            Outcome::Ok(img) => {
+                let im = image::decode(&img);
+                rep.case(fnv(format!("leader/{k}").as_bytes()), true);
+                rep.count("exited_leader_dumps_judged", 1);
+                for (st, file, name) in [(image::ST_LINUX_CMD_LINE, "cmdline", "command line"), (image::ST_LINUX_ENVIRON, "environ", "environment"), (image::ST_MOZ_LINUX_LIMITS, "limits", "resource limits"), (image::ST_LINUX_MAPS, "maps", "memory map")] {
+                    let Ok(truth) = std::fs::read(format!("/proc/{worker}/{file}")) else { continue };
+                    if truth.is_empty() {
+                        continue;
+                    }
+                    rep.count("raw_streams_compared", 1);
+                    match im.raw.get(&st) {
+                        Some(got) if *got == truth => {}
+                        Some(got) => rep.violation(&format!("C18 raw stream `{name}` is not a byte copy (leader exited)"), json!({"case": case, "got_len": got.len(), "expected_len": truth.len()})),
+                        None => rep.violation(&format!("C18 raw stream `{name}` missing (leader exited)"), json!({"case": case, "soft_errors": im.soft_errors()})),
+                    }
+                }
+            }
+            Outcome::Err(e) => rep.violation("C18 dump failed on a target whose leader exited", json!({"case": case, "error": e.chars().take(200).collect::<String>()})),
+            Outcome::Panic { message, location } => rep.violation(&format!("C18 panic at {location}"), json!({"case": case, "panic": message})),
+        }
+    }
 }
